@@ -8,6 +8,7 @@ import Resonate.Proofs.PromIds
 import Resonate.Model.SqlSpec
 import Resonate.Proofs.StoreBasics
 import Resonate.Proofs.PromiseInv
+import Resonate.Proofs.SysDb
 namespace Resonate.C03
 open Resonate Coro SqlSpec
 
@@ -149,6 +150,26 @@ theorem creation_takes_effect_once (d : Dialect) (db : Db) (c : CreatePromiseCmd
     simp only [List.any_eq_true]; exact ⟨r, hr, by simp [hid]⟩
   simp only [Db.exec, Db.createPromise, this, if_true]
   exact ⟨_, rfl, rfl⟩
+
+/-! ### the same, over every run of the kernel model -/
+
+/-- **Every run: one promise per id.** Whatever creates, retries (with any key), races, failures, crashes and
+    restarts a run contains, no reachable database holds two promises with one id: of any number of creates of
+    an id at most one ever took effect. -/
+theorem ids_unique_every_run (env : Env) (d : Dialect) (db0 : Db) (h0 : PromIds db0) (cs : List Choice) :
+    PromIds ((Sys.boot env d (defs d) db0).run cs).db := by
+  have h := run_rel (fun a b => PromIds a → PromIds b) (fun _ h => h) (fun _ _ _ h1 h2 h => h2 (h1 h))
+    (Sys.boot env d (defs d) db0) (fun db db' c r hx hi => promIds_exec d db db' c r hi hx) cs
+  exact h h0
+
+/-- spelled out: two stored promises with the same id are the same row -/
+theorem at_most_one_promise_per_id_every_run (env : Env) (d : Dialect) (db0 : Db) (h0 : PromIds db0) (cs : List Choice)
+    (a b : PromiseRow) (ha : a ∈ ((Sys.boot env d (defs d) db0).run cs).db.promises)
+    (hb : b ∈ ((Sys.boot env d (defs d) db0).run cs).db.promises) (hid : a.id = b.id) : a = b :=
+  promIds_unique (ids_unique_every_run env d db0 h0 cs) ha hb hid
+
+/-- the empty database a fresh server starts from meets the hypothesis -/
+example : PromIds ({} : Db) := by simp [PromIds]
 
 /-! ### non-vacuity -/
 example : keyMatch (some "k") (some "k") = true ∧ keyMatch none none = false := by decide
